@@ -322,7 +322,8 @@ var pinned = []pin{
 	{"jsonencodable-stale", "JSON.stringify of a by-value struct implementing JsonEncodable shows the current field values", func(p *pinEnv) {
 		p.set("j", JE{A: 1, B: "a"})
 		p.js(`j.B = "b"`)
-		p.expect(`j.B + JSON.stringify(j)`, `b{"a":1,"b":"b"}`)
+		// (JsonEncodable returns a Go map: its key order in the JSON text is unspecified)
+		p.expect(`var o = JSON.parse(JSON.stringify(j)); j.B + ':' + o.a + ':' + o.b`, `b:1:b`)
 	}},
 	{"jsfunc-conversion-panic", "a JS function stored in a Go func location and called from script: a result that does not convert is an exception, not a Go panic", func(p *pinEnv) {
 		fs := []func() []uint32{nil}
@@ -359,6 +360,31 @@ var pinned = []pin{
 		s := []interface{}{1}
 		p.set("s", &s)
 		p.expect(`s[0] = s; String(s) + '|' + s.toLocaleString()`, "|")
+	}},
+	{"export-array-twice", "one script array exported into a Go array type at two places of one ExportTo: both get the elements", func(p *pinEnv) {
+		v, _ := p.js(`var n = [9, 13, 37]; ({A: n, B: n})`)
+		var res struct{ A, B [3]int }
+		err := p.r.ExportTo(v, &res)
+		p.check(err == nil && res.A == [3]int{9, 13, 37} && res.B == res.A, "ExportTo({A: n, B: n}, &struct{A, B [3]int}) = %v (err %v), expected both [9 13 37]", res, err)
+	}},
+	{"doc-mixed-export-sharing", "one script object reached three times in one ExportTo (interface{}, map[string]int, interface{}): the generic exports are one map", func(p *pinEnv) {
+		v, _ := p.js(`var o = {x: 1}; o.self = o; ({A: o, B: o, C: o, D: [o]})`)
+		var res struct {
+			A interface{}
+			B map[string]int
+			C interface{}
+			D []interface{}
+		}
+		err := p.r.ExportTo(v, &res)
+		a, _ := res.A.(map[string]interface{})
+		c, _ := res.C.(map[string]interface{})
+		p.check(err == nil && a != nil && c != nil && len(res.D) == 1, "ExportTo failed: %v %v", err, res)
+		if a != nil && c != nil && len(res.D) == 1 {
+			d, _ := res.D[0].(map[string]interface{})
+			self, _ := a["self"].(map[string]interface{})
+			a["mark"] = true
+			p.check(c["mark"] == true && d["mark"] == true && self["mark"] == true && res.B["x"] == 1, "sharing lost: A=%v C=%v D[0]=%v A.self=%v B=%v", a, c, d, self, res.B)
+		}
 	}},
 }
 
@@ -429,6 +455,7 @@ func fixedJSFuncConv() bool     { return fixed("jsfunc-conversion-panic") }
 func fixedEmbCache() bool       { return fixed("embedded-ptr-promoted-cache") }
 func fixedPtrSlot() bool        { return fixed("ptr-element-slot-alias") }
 
+func fixedArrayTwice() bool { return fixed("export-array-twice") }
 func fixedCyclicJoin() bool { return fixed("cyclic-goslice-join") }
 
 var _ = reflect.TypeOf
